@@ -263,6 +263,30 @@ framed correctly as a dictionary word -/
 theorem dictWordOk_encTLV (v : Val) (hk : dictKind v) (hw : wfDec v) : DictWordOk (encTLV v) :=
   Lemmas.C01.dictWordOk_encTLV v hk hw
 
+/-- WITH patch c16-5 (the length of a string word is widened before 3 is added) the dictionary reader frames a string
+word of EVERY length the two length bytes can say — also 65533..65535 bytes. -/
+theorem dictWordOk_str_every_length (s : Bytes) (h : s.length < 65536) : DictWordOk (encTLV (.str s)) := by
+  intro r
+  rw [Lemmas.C01.encTLV_str_wf s h]
+  have hr : rdN 2 (leN 2 s.length ++ (s ++ r)) = some (s.length, s ++ r) := Lemmas.C01.rdN_leN 2 _ _ (by simpa using h)
+  simp [dictWordLen, hr, Lemmas.C01.leN_length]
+  omega
+
+/-- OLD behaviour (before patch c16-5) REFUTED: the sum `3 + length` was taken in uint16, so a string word of 65533
+bytes was stepped over as a word of 0 bytes (the reader went on inside the word: the column came back empty, or the
+process died with "slice bounds out of range"). -/
+theorem dictWord_wrap_old_counterexample :
+    ¬ (∀ (s r : Bytes), s.length < 65536 → dictWordLenOld (encTLV (.str s) ++ r) = .ok (encTLV (.str s)).length) := by
+  intro h
+  have hlen : (List.replicate 65533 0).length = 65533 := List.length_replicate
+  generalize List.replicate 65533 0 = s at hlen
+  have h1 := h s [] (by omega)
+  rw [Lemmas.C01.encTLV_str_wf s (by omega)] at h1
+  have hr : rdN 2 (leN 2 65533 ++ s) = some (65533, s) := Lemmas.C01.rdN_leN 2 _ _ (by omega)
+  simp [dictWordLenOld, hlen, Lemmas.C01.leN_length] at h1
+  rw [hr] at h1
+  simp at h1
+
 /-- C01.4 `ReadDictEnc (PackDictEnc d)`: the words come back in order; guards = what the 2-byte fields hold:
 fewer than 65536 words, each with fewer than 65536 record numbers below 65536. -/
 theorem readDict_packDict (d : Dict) (rc : Nat) (hn : d.length < 65536) (hes : ∀ e ∈ d, EntryOk e) :
